@@ -177,6 +177,13 @@ func genC11(r *Rng, tier string, idx int) *Plan {
 	k.IDTokenTTL = []int{60, 300, 600}[r.Intn(3)]
 	k.ExpiresIn = []int{60, 300, 600}[r.Intn(3)]
 	k.RefreshNonce = r.Pick([]string{"omit", "omit", "echo", "empty"})
+	if r.Chance(0.3) {
+		// key sets fetched from the provider at a short configured interval; the key endpoint may send caching
+		// headers that say otherwise (the configured interval is what counts)
+		p.Spec.Filters[0].JWKSFetch = true
+		p.Spec.Filters[0].JWKSInterval = 60
+		k.JWKSCacheControl = r.Pick([]string{"", "max-age=86400", "public, max-age=604800", "no-cache"})
+	}
 	life := k.IDTokenTTL
 	if k.ExpiresIn > life {
 		life = k.ExpiresIn
